@@ -413,6 +413,19 @@ def analyse(p, pr, r1, r6):
                     ok = len(dc.generators) == 1 and not gen.ifs and isinstance(gen.iter, ast.Name) and gen.iter.id in f.params and norm(dc.key) == norm(gen.target) and norm(dc.value.args[0]) == norm(gen.target)
                     r6.check(ok, f, n, "hashers are not built for every requested format / stored under their own format")
         if not built:
+            # the hasher that is fed is not created here at all: it is the receiver / a parameter / an attribute, i.e. an object that outlives the call
+            fed = [n for n in walk_no_nested(f.node) if isinstance(n, ast.Call) and isinstance(n.func, ast.Attribute) and n.func.attr == "update" and n.args]
+            outer = []
+            for n in fed:
+                root = n.func.value
+                while isinstance(root, (ast.Attribute, ast.Subscript)):
+                    root = root.value
+                if isinstance(root, ast.Name) and (root.id in f.params or root.id in ("self", "cls")) and not any(isinstance(a, ast.Assign) and any(isinstance(t, ast.Name) and t.id == root.id for t in a.targets) for a in walk_no_nested(f.node)):
+                    outer.append(n)
+            if outer and len(outer) == len(fed):
+                r6.instance(f, outer[0], norm(outer[0])[:60])
+                r6.check(False, f, outer[0], f"`{norm(outer[0])[:50]}` feeds a hasher that is not created in {f.name} (`{norm(outer[0].func.value)}` outlives the call): the digest returned depends on everything that object was fed before - a second file hashed with the same object, or a hasher that already received data, yields the digest of the concatenation", construct=f"{f.name}: hasher state outlives the call")
+                continue
             raise AnalysisError(f"{f.qual}: construction of the hasher(s) not recognised")
     r6.instance(fac, fac.node, "factory")
     ft = norm(fac.node)
